@@ -250,6 +250,75 @@ pub fn oracle_single(req: &Req, got: &Resp) -> Result<(), String> {
     }
 }
 
+struct ZeroRng;
+impl rand_core::RngCore for ZeroRng {
+    fn next_u32(&mut self) -> u32 {
+        0
+    }
+    fn next_u64(&mut self) -> u64 {
+        0
+    }
+    fn fill_bytes(&mut self, _d: &mut [u8]) {}
+    fn try_fill_bytes(&mut self, _d: &mut [u8]) -> Result<(), rand_core::Error> {
+        Ok(())
+    }
+}
+impl rand_core::CryptoRng for ZeroRng {}
+
+/// The batch coefficients as the documented construction derives them (merlin transcript "ed25519 batch
+/// verification", one "hram" message per entry, one "sig.s" message per entry, rng finalised with an
+/// all-zero rng, 128 bits per entry) - or under a HYPOTHESIS about a defective derivation:
+/// with_s = false leaves the S halves out, with_hram = false leaves the H(R||A||M) values out.
+fn predicted_coefficients(v: &[Entry], with_hram: bool, with_s: bool) -> Vec<Sc> {
+    use rand_core::RngCore;
+    let mut t = merlin::Transcript::new(b"ed25519 batch verification");
+    if with_hram {
+        for e in v {
+            t.append_message(b"hram", &eddsa::sha512(&[&e.sig[..32], &e.pk, &e.msg]));
+        }
+    }
+    if with_s {
+        for e in v {
+            t.append_message(b"sig.s", &e.sig[32..]);
+        }
+    }
+    let mut rng = t.build_rng().finalize(&mut ZeroRng);
+    v.iter().map(|_| {
+        let mut b = [0u8; 16];
+        rng.fill_bytes(&mut b);
+        Sc::from_u256(&U256::from_u128(u128::from_le_bytes(b)))
+    }).collect()
+}
+
+/// Forgeries against a coefficient derivation that does not bind every input: if the coefficients z can be
+/// predicted BEFORE the S halves are fixed (because S, or everything, is left out of the transcript), then
+/// S_i += z_j, S_j -= z_i keeps sum z_k * delta_k = 0 and the batch passes although entries i and j are
+/// invalid. With the documented derivation z changes as soon as any S changes, so these batches are rejected
+/// (added after the seeded change C13f: the S halves appended to the transcript after the rng was built).
+pub fn coefficient_prediction() -> BoxedStrategy<Req> {
+    let np = honest_pool().len();
+    (2usize..12, any::<usize>(), any::<usize>(), 1usize..8, 0u8..3).prop_map(move |(n, start, i, d, hyp)| {
+        let mut v: Vec<Entry> = (0..n).map(|k| honest_pool()[(start % np + k) % np].clone()).collect();
+        let i = i % n;
+        let j = (i + d) % n;
+        if i != j {
+            let z = match hyp {
+                0 => predicted_coefficients(&v, true, false),
+                1 => predicted_coefficients(&v, false, false),
+                // control: the documented derivation evaluated BEFORE the change of S (what an attacker can compute)
+                _ => predicted_coefficients(&v, true, true),
+            };
+            let si = Sc::from_bytes_mod_order(&v[i].sig[32..].try_into().unwrap()).add(&z[j]);
+            let sj = Sc::from_bytes_mod_order(&v[j].sig[32..].try_into().unwrap()).sub(&z[i]);
+            v[i].sig[32..].copy_from_slice(&si.to_bytes());
+            v[j].sig[32..].copy_from_slice(&sj.to_bytes());
+        }
+        let mut r = encode(&v, 0, 1);
+        r.a.push(vec![(i & 0xff) as u8, (i >> 8) as u8, (j & 0xff) as u8, (j >> 8) as u8]);
+        r
+    }).boxed()
+}
+
 /// oracle for `cancellation`: the two modified entries are checked with the model's single-verification
 /// predicate (all other entries are untouched pool entries, valid by construction and by the self-check
 /// of the pool); the batch must be rejected iff one of them is invalid
@@ -307,7 +376,7 @@ pub fn classify(r: &Req, resp: &Resp) -> Vec<&'static str> {
     l
 }
 
-pub const RULE: &str = "batches of n in {0,1,2,3,8,33} (and one each of 94,95,96,190,250,400: Straus/Pippenger switch at 2n+1=190) drawn from a pool of honest entries (canonical torsion-free keys and R, mixed message lengths, several messages per key), with 0..3 corruptions (another honest key, message bit flip, another honest R, another valid S, the cancellation pair S_i+e / S_j-e, duplication; and a dedicated family of single cancellation / swap pairs at structured index distances 1,2,3,4,7,8,16,32,64,128,256 in batches of 2..257 distinct honest entries), and a family of batches of 1..1100 entries with exactly one corrupted entry at a structured position (first, last, around 64/128/256/512, middle, random) or none, error classes (S+l, undecodable R, each kind of slice-length mismatch), permutation and repeated calls; oracle = conjunction of the model's single-verification predicate over the entries (error classes must give Err, never a panic or Ok); non-trivial = >=2 entries with a corruption, n on a regime boundary, an error-class input or a repeated call";
+pub const RULE: &str = "batches of n in {0,1,2,3,8,33} (and one each of 94,95,96,190,250,400: Straus/Pippenger switch at 2n+1=190) drawn from a pool of honest entries (canonical torsion-free keys and R, mixed message lengths, several messages per key), with 0..3 corruptions (another honest key, message bit flip, another honest R, another valid S, the cancellation pair S_i+e / S_j-e, duplication; and a dedicated family of single cancellation / swap pairs at structured index distances 1,2,3,4,7,8,16,32,64,128,256 in batches of 2..257 distinct honest entries), and a family of batches of 1..1100 entries with exactly one corrupted entry at a structured position (first, last, around 64/128/256/512, middle, random) or none, and forgeries S_i += z_j, S_j -= z_i built from coefficients predicted under the hypotheses that S is not bound or that nothing is bound (the merlin derivation replicated), error classes (S+l, undecodable R, each kind of slice-length mismatch), permutation and repeated calls; oracle = conjunction of the model's single-verification predicate over the entries (error classes must give Err, never a panic or Ok); non-trivial = >=2 entries with a corruption, n on a regime boundary, an error-class input or a repeated call";
 
 pub fn checks(tier: Tier) -> Vec<Check> {
     vec![
@@ -329,6 +398,17 @@ pub fn checks(tier: Tier) -> Vec<Check> {
             exec: Box::new(crate::ops::exec),
             oracle: Box::new(oracle_cancellation),
             classify: Box::new(|r: &Req, _: &Resp| { let n = r.a[2].len() / 64; if n > 64 { vec!["cancellation-pair-n>64"] } else { vec!["cancellation-pair"] } }),
+            rule: RULE,
+            exhaustive: false,
+            enumerate: None,
+        },
+        Check {
+            name: "C13.batch-coefficient-prediction".into(),
+            strategy: coefficient_prediction(),
+            cases: tier.scale(4_000, 8),
+            exec: Box::new(crate::ops::exec),
+            oracle: Box::new(oracle_cancellation),
+            classify: Box::new(|_: &Req, _: &Resp| vec!["forgery-from-predicted-coefficients"]),
             rule: RULE,
             exhaustive: false,
             enumerate: None,
